@@ -336,6 +336,8 @@ func (t *FnTrans) call(x *ssa.Call, c *ssa.CallCommon, st *HeapState, reach stri
 		r := t.havocVal(x.Type(), "ret."+callee.Name())
 		if name == "fmt.Sprintf" && r.K == VScalar {
 			t.sprintfConfinement(x, c, args, r, st, reach)
+			t.sprintfDashFields(x, c, args, r, st, reach)
+			t.sprintfAnchoredRegex(x, c, args, r, st, reach)
 		}
 		if nonNilResult[name] && r.K == VScalar {
 			t.declare("iface.nil", "Iface")
@@ -742,7 +744,48 @@ func (t *FnTrans) contractCall(x *ssa.Call, callee *ssa.Function, con *Contract,
 				t.addObl("frame", "callee-without-frame:"+name, reach, Formula{Raw: "false"}, x.Pos(), "callee has no resolvable frame")
 			}
 		}
-		if len(con.Modifies) == 0 {
+		if len(con.Preserves) > 0 && con.Assumed && len(con.Modifies) == 0 {
+			// frame by exclusion: everything but the listed components may change
+			keep, ok := t.modifiesComps(callee, &Contract{Modifies: con.Preserves})
+			// touch the preserved components in the pre-state so that they exist
+			for _, it := range con.Preserves {
+				func() {
+					defer func() { _ = recover() }()
+					inner := it
+					isContents := strings.HasPrefix(it, "contents(") && strings.HasSuffix(it, ")")
+					if isContents {
+						inner = it[len("contents(") : len(it)-1]
+					}
+					ex, err := parser.ParseExpr(inner)
+					if err != nil {
+						return
+					}
+					v := pre.eval(ex)
+					if isContents && v.K == VSlice {
+						el := v.T.Underlying().(*types.Slice).Elem()
+						l := t.elemLoc(el, v.Sub[0].S, v.Sub[1].S)
+						for _, cd := range t.flatComps(el) {
+							t.selectComp(pre.st, l, cd)
+						}
+					}
+				}()
+			}
+			for c, srt := range t.compSorts {
+				_ = c
+				_ = srt
+			}
+			ns := t.havocAllKeepGhost(st)
+			if ok {
+				for _, c := range keep {
+					if srt, known := t.compSorts[c]; known {
+						ns.cur[c] = t.heapGet(st, c, srt)
+					}
+				}
+			} else {
+				t.note("call to %s: preserves list not resolvable: nothing preserved", name)
+			}
+			t.replaceState(st, ns)
+		} else if len(con.Modifies) == 0 {
 			// no frame: every real location may change; ghost instrumentation
 			// changes only where the callee (or a contracted callee of it) sets it
 			ns := t.havocAllKeepGhost(st)
@@ -1376,6 +1419,88 @@ func (t *FnTrans) siteMatchesInstr(s *SiteSpec, in ssa.Instruction) bool {
 // is a string that is a trusted directory or a safe name, the result is a
 // confined path.  (String-level rule decided on the literal text; the
 // predicates are the uninterpreted ones of the lookups/dashboards contracts.)
+// sprintfDashFields: identifiers built as fmt.Sprintf("%d-%v-%v", a, b, c).
+// When the format literal is a dash-separated list of plain %d / %v verbs and an
+// argument is a non-negative 64-bit integer, its decimal text contains no dash,
+// so the k-th dash-separated field of the result reads back that argument:
+// dashField<k>(result) == arg_k.  (String-level rule decided on the literal
+// format; dashField<k> are the uninterpreted functions contracts refer to as
+// uf("dashField<k>", int64, s).)  Used for C13: the tenant is its own field of
+// a stream id, so ids of different tenants differ.
+func (t *FnTrans) sprintfDashFields(x *ssa.Call, c *ssa.CallCommon, args []Val, res Val, st *HeapState, reach string) {
+	if len(c.Args) != 2 {
+		return
+	}
+	fc, ok := c.Args[0].(*ssa.Const)
+	if !ok || fc.Value == nil || fc.Value.Kind() != constant.String {
+		return
+	}
+	parts := strings.Split(constant.StringVal(fc.Value), "-")
+	if len(parts) < 2 {
+		return
+	}
+	for _, p := range parts {
+		if p != "%d" && p != "%v" {
+			return
+		}
+	}
+	sl := args[1]
+	n, isConst := constLen(t, sl)
+	if sl.K != VSlice || !isConst || n != len(parts) {
+		return
+	}
+	tyOf := t.declareFun("iface.type", []string{"Iface"}, "Int")
+	srt := arraySort("Int", arraySort(t.mode.idxSort(), "Iface"))
+	arr := t.heapGet(st, "B.Iface", srt)
+	s64 := t.mode.intSort(64)
+	var facts []string
+	for k := 0; k < n; k++ {
+		e := sx("select", sx("select", arr, sl.Sub[0].S), t.addIdx(sl.Sub[1].S, t.mode.intLit64(int64(k), 64)))
+		field := t.declareFun(fmt.Sprintf("uf.dashField%d.Str", k), []string{"Str"}, s64)
+		for _, ty := range []types.Type{types.Typ[types.Int64], types.Typ[types.Int], types.Typ[types.Uint64], types.Typ[types.Uint]} {
+			un := t.declareFun("unbox."+typeKey(ty), []string{"Iface"}, s64)
+			cond := eq(sx(tyOf, e), t.typeTag(ty))
+			if _, signed, _ := intInfo(ty); signed {
+				cond = and(cond, t.cmpIdx(">=", sx(un, e), t.mode.intLit64(0, 64)))
+			}
+			facts = append(facts, implies(cond, eq(sx(field, res.S), sx(un, e))))
+		}
+	}
+	t.assume(reach, and(facts...), "fmt.Sprintf with a dash-separated list of integer verbs: each non-negative integer argument is read back from its field")
+}
+
+// sprintfAnchoredRegex: fmt.Sprintf("^(%v)$", p) (or "^(?:%v)$" / %s) is the
+// fully anchored form of the regular expression p: the group keeps a top-level
+// alternation inside the anchors.  Contracts refer to the fact as
+// uf("fullyAnchored", bool, result, p).  (String-level rule decided on the
+// literal format; used for C09: PromQL regex matchers are fully anchored.)
+func (t *FnTrans) sprintfAnchoredRegex(x *ssa.Call, c *ssa.CallCommon, args []Val, res Val, st *HeapState, reach string) {
+	if len(c.Args) != 2 {
+		return
+	}
+	fc, ok := c.Args[0].(*ssa.Const)
+	if !ok || fc.Value == nil || fc.Value.Kind() != constant.String {
+		return
+	}
+	switch constant.StringVal(fc.Value) {
+	case "^(%v)$", "^(%s)$", "^(?:%v)$", "^(?:%s)$":
+	default:
+		return
+	}
+	sl := args[1]
+	n, isConst := constLen(t, sl)
+	if sl.K != VSlice || !isConst || n != 1 {
+		return
+	}
+	tyOf := t.declareFun("iface.type", []string{"Iface"}, "Int")
+	un := t.declareFun("unbox."+typeKey(types.Typ[types.String]), []string{"Iface"}, "Str")
+	anch := t.declareFun("uf.fullyAnchored.Str_Str", []string{"Str", "Str"}, "Bool")
+	srt := arraySort("Int", arraySort(t.mode.idxSort(), "Iface"))
+	arr := t.heapGet(st, "B.Iface", srt)
+	e := sx("select", sx("select", arr, sl.Sub[0].S), sl.Sub[1].S)
+	t.assume(reach, implies(eq(sx(tyOf, e), t.typeTag(types.Typ[types.String])), sx(anch, res.S, sx(un, e))), "fmt.Sprintf(\"^(%v)$\", p) is the fully anchored form of the regular expression p")
+}
+
 func (t *FnTrans) sprintfConfinement(x *ssa.Call, c *ssa.CallCommon, args []Val, res Val, st *HeapState, reach string) {
 	if len(c.Args) != 2 {
 		return
